@@ -353,6 +353,11 @@ func (run *Run) Tears(k int) []crashsim.Tear {
 		return out
 	case crashsim.EvPage:
 		if run.H.NoTornPage {
+			// the listed finding concerns a page that is overwritten in place; the first write of a page that extends the
+			// file only leaves a short file, which the engine reads as an empty page and rebuilds from the log
+			if run.Rec.ExtendsFile(k - 1) {
+				return []crashsim.Tear{{On: true, Bytes: 600}, {On: true, Bytes: 16}}
+			}
 			return nil
 		}
 		return []crashsim.Tear{{On: true, Bytes: 512}, {On: true, Bytes: 2048}, {On: true, Bytes: 3584}}
